@@ -1231,4 +1231,60 @@ pub mod package {
 		let template = PackageTemplate::verif_from_inputs(data, counterparty_spendable_height);
 		(template.get_height_timer(current_height), template.package_locktime(current_height))
 	}
+
+	/// `PackageTemplate::compute_package_feerate` of a template whose `feerate_previous` is
+	/// `previous_feerate` (0 = first issue of the claim); strategy coded as in [`feerate_bump`]
+	/// (add-only accessor, C07).
+	pub fn compute_package_feerate<F: FeeEstimator>(
+		previous_feerate: u64, feerate_strategy: u8, fee_estimator: F,
+		channel_parameters: &ChannelTransactionParameters,
+	) -> u32 {
+		let template = synthetic_malleable_template(0, previous_feerate, channel_parameters);
+		template.compute_package_feerate(
+			&LowerBoundedFeeEstimator::new(fee_estimator),
+			TARGET,
+			&strategy(feerate_strategy),
+		)
+	}
+
+	/// `PackageTemplate::compute_package_output` of a malleable template with a single revoked
+	/// `to_local` input worth `input_amounts` sat whose `feerate_previous` is `previous_feerate`
+	/// (add-only accessor, C07).
+	pub fn compute_package_output<F: FeeEstimator, L: Logger>(
+		input_amounts: u64, predicted_weight: u64, dust_limit_sats: u64, previous_feerate: u64,
+		feerate_strategy: u8, fee_estimator: F, logger: &L,
+		channel_parameters: &ChannelTransactionParameters,
+	) -> Option<(u64, u64)> {
+		let template =
+			synthetic_malleable_template(input_amounts, previous_feerate, channel_parameters);
+		template.compute_package_output(
+			predicted_weight,
+			dust_limit_sats,
+			&strategy(feerate_strategy),
+			TARGET,
+			&LowerBoundedFeeEstimator::new(fee_estimator),
+			logger,
+		)
+	}
+
+	fn synthetic_malleable_template(
+		input_amounts: u64, previous_feerate: u64, channel_parameters: &ChannelTransactionParameters,
+	) -> PackageTemplate {
+		let key = SecretKey::from_slice(&[1; 32]).unwrap();
+		let point = PublicKey::from_slice(&[2; 33]).unwrap();
+		let data = PackageSolvingData::RevokedOutput(RevokedOutput::build(
+			point,
+			key,
+			Amount::from_sat(input_amounts),
+			channel_parameters.clone(),
+			0,
+		));
+		let outpoint = OutPoint {
+			txid: bitcoin::Txid::from_raw_hash(bitcoin::hashes::Hash::all_zeros()),
+			vout: 0,
+		};
+		let mut template = PackageTemplate::verif_from_inputs(vec![(outpoint, data)], 0);
+		template.set_feerate(previous_feerate);
+		template
+	}
 }
